@@ -9,8 +9,16 @@ def side_str(v):
     return "" if v is None else str(v)
 
 
+I32_EDGES = [2147483647, -2147483647, -2147483648, 2147483646]
+
+
 def sides(k):
     return [v for v in range(-k, k + 1) if v != 0] + [OPEN]
+
+
+def pick_side(rng, k, edge_p=0.02):
+    """a side in ±k / open, now and then one end of the i32 range (abs / negation / multiplication overflow there)"""
+    return rng.choice(I32_EDGES) if rng.random() < edge_p else rng.choice(sides(k))
 
 
 def wellformed_bound(l, r):
@@ -89,6 +97,9 @@ def alphabet_for(d, z, rich=True):
     a = [bytes([x]) for x in d] * 3 + [b"x", b"y"]
     if rich:
         a += [other, b"\r", b"\xff"]
+        if len(d) == 1 and d[0] < 0x80:
+            # characters whose code point has the delimiter as its low byte (U+01dd, U+04dd): a `char as u8` comparison confuses them
+            a += [chr(0x100 + d[0]).encode(), chr(0x400 + d[0]).encode()]
     return a, eol
 
 
@@ -114,6 +125,12 @@ def rand_bound(rng, k=4, fallback_p=0.25):
     while True:
         l = rng.choice(sides(k))
         r = rng.choice(sides(k))
+        if rng.random() < 0.03:
+            # the ends of the i32 range (abs / negation / multiplication overflow there)
+            if rng.random() < 0.5:
+                l = rng.choice(I32_EDGES)
+            else:
+                r = rng.choice(I32_EDGES)
         single = rng.random() < 0.4
         if single:
             if l is None:
